@@ -153,7 +153,8 @@ def finish(ctx, explanation, rule_text, t0, seed=0, assumptions=()):
             listed.append(o)
         else:
             unlisted.append(o)
-    ev_dir = os.path.join(VERIF, "evidence")
+    # evidence always describes /repo itself; a run pointed at a scratch copy (VERIF_REPO, used by the sweeps) writes elsewhere
+    ev_dir = os.environ.get("VERIF_EVIDENCE_DIR") or os.path.join(VERIF, "evidence")
     os.makedirs(os.path.join(ev_dir, "replay"), exist_ok=True)
     for o in listed:
         print("KNOWN-FINDING: property=%s %s [%s] %s" % (ctx.prop, known[o.key].get("what", o.detail), o.key, o.site))
@@ -184,6 +185,8 @@ def finish(ctx, explanation, rule_text, t0, seed=0, assumptions=()):
         "samples": samples,
         "obligations": len(ctx.obs),
         "discharged": len(passed),
+        "obligation_list": [{"rule": o.rule, "key": o.key, "site": o.site, "verdict": o.verdict, "what": (o.detail or "")[:220]} for o in ctx.obs],
+        "functions_analysed": sorted(ctx.bodies_touched)[:400],
         "known_findings_matched": [o.key for o in listed],
         "unlisted_violations": [o.key for o in unlisted],
         "per_rule": per_rule,
